@@ -9,7 +9,8 @@ from . import csrc
 from .csrc import ExtractError
 
 ORDER = ["runFilter", "timerCheck", "pushSkipsStale", "popSkipsStale", "closeChecks", "procCheck", "deadlineChecks",
-         "didResumeDetaches", "scheduleBumps", "canceledGuard", "sleepRounds", "hasReaderChecks", "timeoutAfterValidation"]
+         "didResumeDetaches", "scheduleBumps", "canceledGuard", "sleepRounds", "hasReaderChecks", "timeoutAfterValidation",
+         "didResumeFirst", "procErrCheck", "resumeBumps"]
 
 
 def body(src, name):
@@ -28,6 +29,46 @@ def body(src, name):
 
 def sq(s):
     return re.sub(r"\s+", "", s)
+
+
+def path_conditions(src, pos):
+    """Conditions of the `if (...) {` / `else if (...) {` blocks of the whitespace-free text `src` that enclose offset `pos`,
+    outermost first; a plain `else {` contributes "!(" + condition of its `if` + ")".  Only braces are followed, so the
+    guarded statement must sit in a braced block (checked by the callers through the shapes they accept)."""
+    conds = []
+    stack = []          # (open brace offset, condition text or None)
+    i = 0
+    last_if_cond = {}   # nesting depth -> condition of the most recent `if` closed at that depth
+    while i < pos:
+        ch = src[i]
+        if ch == "{":
+            head = src[:i]
+            m = re.search(r"(?:elseif|if)\(", head)
+            cond = None
+            # condition = the parenthesised text that ends directly before this brace
+            if head.endswith(")"):
+                depth, j = 0, len(head) - 1
+                while j >= 0:
+                    if head[j] == ")":
+                        depth += 1
+                    elif head[j] == "(":
+                        depth -= 1
+                        if depth == 0:
+                            break
+                    j -= 1
+                kw = head[:j]
+                if kw.endswith("if"):
+                    cond = head[j + 1:-1]
+            elif head.endswith("else"):
+                cond = "!(" + last_if_cond.get(len(stack), "?") + ")"
+            stack.append((i, cond))
+        elif ch == "}":
+            if stack:
+                o, cond = stack.pop()
+                if cond is not None and not cond.startswith("!("):
+                    last_if_cond[len(stack)] = cond
+        i += 1
+    return [c for _, c in stack if c is not None]
 
 
 def extract(tree):
@@ -68,7 +109,18 @@ def extract(tree):
     pcb = sq(body(osc, "janet_proc_wait_cb"))
     if "janet_schedule(args.fiber,janet_wrap_integer(status))" not in pcb:
         raise ExtractError("janet_proc_wait_cb: schedule not recognised")
-    c["procCheck"] = "if(janet_fiber_can_resume(args.fiber)&&args.fiber->sched_id==sched_id){" in pcb and "uint32_tsched_id=(uint32_t)args.argi;" in pcb
+    if "uint32_tsched_id=(uint32_t)args.argi;" not in pcb:
+        raise ExtractError("janet_proc_wait_cb: the recorded generation is no longer read from args.argi")
+    gen_test = "args.fiber->sched_id==sched_id"
+
+    def guarded(stmt):
+        k = pcb.find(stmt)
+        if k < 0:
+            raise ExtractError("janet_proc_wait_cb: `%s` not recognised" % stmt)
+        conds = path_conditions(pcb, k)
+        return any(gen_test in cd and not cd.startswith("!(") and "||" not in cd for cd in conds)
+    c["procCheck"] = guarded("janet_schedule(args.fiber,janet_wrap_integer(status))")
+    c["procErrCheck"] = guarded("janet_cancel(args.fiber,")
     if "targs.argi=(uint32_t)targs.fiber->sched_id;" not in sq(osc):
         raise ExtractError("os_proc_wait_impl: generation not recorded in the threaded call")
     dr = sq(body(ev, "janet_fiber_did_resume"))
@@ -77,8 +129,21 @@ def extract(tree):
     if "fiber->ev_stream->read_fiber=NULL;" not in ae or "fiber->ev_callback=NULL;" not in ae:
         c["didResumeDetaches"] = False
     vm = sq(csrc.strip_comments(csrc.read(tree, "src/core/vm.c")))
-    if not re.search(r"janet_continue_no_check\(JanetFiber\*fiber,Janetin,Janet\*out\)\{JanetFiberStatusold_status=janet_fiber_status\(fiber\);(#ifdefJANET_EV)?janet_fiber_did_resume\(fiber\);", vm):
+    m = re.search(r"janet_continue_no_check\(JanetFiber\*fiber,Janetin,Janet\*out\)\{(.*?)JanetTryStatetstate;", vm)
+    if not m or "if(fiber->child){" not in m.group(1):
+        raise ExtractError("vm.c janet_continue_no_check: `if (fiber->child)` block not recognised")
+    cnc = m.group(1)
+    k = cnc.find("janet_fiber_did_resume(fiber);")
+    if k < 0:
         c["didResumeDetaches"] = False
+        c["didResumeFirst"] = False
+    else:
+        # first: unconditionally (no enclosing brace) and before the child block, i.e. before anything can return early
+        c["didResumeFirst"] = k < cnc.find("if(fiber->child){") and "return" not in cnc[:k] and cnc[:k].count("{") == cnc[:k].count("}")
+    # run phase: the generation is bumped again when the task is resumed
+    c["resumeBumps"] = bool(re.search(r"if\(task\.expected_sched_id!=task\.fiber->sched_id\)continue;(?:[^;{}]*;)?task\.fiber->sched_id\+\+;"
+                                      r"(?:[^;{}]*;)?JanetSignalsig=janet_continue_signal\(task\.fiber,task\.value,&res,task\.sig\);", loop1)) or \
+        bool(re.search(r"if\(task\.expected_sched_id!=task\.fiber->sched_id\)continue;\+\+task\.fiber->sched_id;", loop1))
     sg = sq(body(ev, "janet_schedule_general"))
     if "JanetTaskt={fiber,value,sig," not in sg:
         raise ExtractError("janet_schedule_general: task construction not recognised")
